@@ -298,6 +298,12 @@ func vfC03rateWalk(cf *v.Conf, va *v.Variant, res *vfh.Result, file string, wi i
 	}
 	local, _ := ma.NewMultiaddr("/ip4/127.0.0.1/tcp/1")
 	modelSync := true
+	var hist []string // the first walk of every file is written out as a sample
+	defer func() {
+		if wi == 0 {
+			res.Sample(map[string]any{"instance": cf.Inst, "variant": va.Name, "via_limit_wrapper": viaLimit, "history": hist})
+		}
+	}()
 	for si, step := range w.Steps {
 		op := step.Op
 		run.prefix = append(run.prefix, vfC03rateOpStr(op))
@@ -305,6 +311,9 @@ func vfC03rateWalk(cf *v.Conf, va *v.Variant, res *vfh.Result, file string, wi i
 		case "Tick":
 			time.Sleep(va.Tick)
 			orc.Advance(va.Tick)
+			if wi == 0 && len(hist) < 30 {
+				hist = append(hist, "Sleep("+va.Tick.String()+")")
+			}
 		case "Allow":
 			a := op.S("a")
 			ca := va.Addr[a]
@@ -328,6 +337,9 @@ func vfC03rateWalk(cf *v.Conf, va *v.Variant, res *vfh.Result, file string, wi i
 				run.mism("rate-limiter-panic", fmt.Sprintf("[%s %s] Allow(%s=%v) panics: %v", cf.Inst, va.Name, a, ca, p), si, nil, fmt.Sprint(p))
 				res.Count(1, 1)
 				return nil
+			}
+			if wi == 0 && len(hist) < 30 {
+				hist = append(hist, fmt.Sprintf("Allow(%s=%v)=%v", a, ca, got))
 			}
 			fs := orc.Observe(a, got)
 			l1 := false
@@ -462,7 +474,6 @@ func TestVerifC03rateReplay(t *testing.T) {
 				t.Fatalf("%s walk %d: %v", f, wi, werr)
 			}
 		}
-		res.Sample(map[string]any{"file": filepath.Base(f), "walks": len(walks), "variants": len(vars)})
 	}
 	if err := res.Write(); err != nil {
 		t.Fatal(err)
